@@ -23,7 +23,7 @@ import (
 
 var c08alphabet = []string{"b", "a", "1", "true", "", "a: b"}
 
-var c08lookalikes = []string{"0x10", "16", "True", "~", "1.0", "010", "+7", "null"}
+var c08lookalikes = []string{"0x10", "16", "True", "~", "1.0", "010", "+7", "null", "\a", "\x01\x1b\\"}
 
 type c08pos struct {
 	name  string
@@ -415,6 +415,33 @@ func c08run(w *report.W) {
 			}
 		}
 		_ = si
+		// a map built with MapFromItems from a slice owns its contents: reusing or editing the caller's slice afterwards
+		// (a scratch buffer used to build several maps, a sort of the tuples) does not show in the map
+		if len(keys) > 0 {
+			scratch := make([]ordered.TupleSA, 0, len(keys)+4)
+			var want []string
+			for i, k := range keys {
+				scratch = append(scratch, ordered.TupleSA{Key: k, Value: i})
+				kb, _ := json.Marshal(k)
+				want = append(want, fmt.Sprintf("%s:%d", kb, i))
+			}
+			m1 := ordered.MapFromItems(scratch...)
+			for i := range scratch {
+				scratch[i] = ordered.TupleSA{Key: fmt.Sprintf("scratch%d", len(scratch)-i), Value: "overwritten"}
+			}
+			m2 := ordered.MapFromItems(scratch[:(len(scratch)+1)/2]...)
+			scratch = append(scratch[:0], ordered.TupleSA{Key: "third", Value: 3})
+			_ = ordered.MapFromItems(scratch...)
+			jb, err := json.Marshal(m1)
+			wantJ := "{" + strings.Join(want, ",") + "}"
+			if err != nil || string(jb) != wantJ || m1.Len() != len(keys) {
+				w.Violate(report.Violation{Kind: "programmatic-aliases-caller-slice", Case: fmt.Sprintf("MapFromItems(slice...) keys %q, slice reused afterwards", keys),
+					Detail: fmt.Sprintf("map now marshals as %s (err %v, Len %d), want %s", jb, err, m1.Len(), wantJ), Size: len(keys)})
+			}
+			if m2.Len() != (len(keys)+1)/2 {
+				w.Violate(report.Violation{Kind: "programmatic-aliases-caller-slice", Case: fmt.Sprintf("second MapFromItems from the reused slice, keys %q", keys), Detail: fmt.Sprintf("Len %d", m2.Len()), Size: len(keys)})
+			}
+		}
 	}
 	_ = pipeline.Parse
 }
@@ -423,10 +450,10 @@ func init() {
 	register(&report.Check{
 		ID: "C08",
 		Rule: "key sequences: all 1957 permutations of all subsets of {b, a, \"1\", \"true\", \"\", \"a: b\"} plus every rotation and the reversal of an unsorted 10-key and 17-key list; each placed at 15 order-preserving " +
-			"positions (all permutations of <=3 of 8 string keys that look like non-canonical YAML scalars: 0x10, 16, True, ~, 1.0, 010, +7, null; pipeline env; top-level extra at depth 1 and 3; unknown fields of command / wait / input / trigger / group steps at depth 1-3, inside matrix adjustments, inside a grouped command; unknown steps at " +
+			"positions (all permutations of <=3 of 10 string keys - 8 that look like non-canonical YAML scalars: 0x10, 16, True, ~, 1.0, 010, +7, null, and 2 made of C0 control characters and a backslash; pipeline env; top-level extra at depth 1 and 3; unknown fields of command / wait / input / trigger / group steps at depth 1-3, inside matrix adjustments, inside a grouped command; unknown steps at " +
 			"top level, nested, and in a bare step list) in JSON and YAML input, with a `<<` merge placed at every index (source repeats an earlier and a later explicit key and adds two new keys); output key order " +
 			"read back from the JSON token stream and the YAML node order; unquoted numeric/boolean keys canonicalised in place, also when a merge supplies the same key under another spelling (own entry wins at its own position); programmatic maps (with tombstones, nested 3 deep, MapSA and MapSS) survive JSON and YAML " +
-			"encode -> decode with ordered.Equal. Non-trivial = more than one key.",
+			"encode -> decode with ordered.Equal; a map built by MapFromItems(slice...) is unaffected by later reuse of that slice. Non-trivial = more than one key.",
 		Assumptions: []string{
 			"legacy plugins mappings are covered by C03 (sources are canonicalised there); here keys are arbitrary strings",
 			"mapping key '<<' is never generated on the YAML output leg",
